@@ -53,6 +53,7 @@ def gen():
         st.tuples(st.just("save")), st.tuples(st.just("save")),
         st.tuples(st.just("restore"), st.integers(0, 10)), st.tuples(st.just("restore"), st.integers(0, 10)),
         st.tuples(st.just("seed"), st.integers(0, 1000)),
+        st.tuples(st.just("rebuild")),
     ).map(list)
     # macro: assignment with auto-update off, immediately followed by a targeted update (then sometimes a full update)
     probe = st.tuples(st.integers(0, 50), st.integers(0, 40), st.lists(st.integers(0, 200), min_size=1, max_size=2), st.booleans()).map(
@@ -62,7 +63,7 @@ def gen():
         lambda t: [["auto", False], ["assign", t[0], t[1], "node"], ["save"], ["update"], ["restore", -1], ["update"]])
     block = st.one_of(op.map(lambda o: [o]), op.map(lambda o: [o]), op.map(lambda o: [o]), probe, probe2)
     ops = st.lists(block, min_size=1, max_size=24).map(lambda bl: [o for b in bl for o in b][:40])
-    return st.fixed_dictionaries({"spec": gg.spec_strategy(), "ops": ops, "entry": st.sampled_from(["builder", "builder", "model"])})
+    return st.fixed_dictionaries({"spec": gg.spec_strategy(), "ops": ops, "entry": st.sampled_from(["builder", "builder", "model", "copy_late"])})
 
 
 def eq_exact(a, b) -> bool:
@@ -180,14 +181,14 @@ def oracle(case):
             s = sources[op[1] % len(sources)]
             val = gg._val(spec[s], op[2])
             obj = b.objs[s]
-            cur = b.value_node(s).value
+            cur = b.value_node(s, model).value
             if op[3] == "inplace" and isinstance(cur, np.ndarray) and cur.flags.writeable and cur.shape == np.shape(val) and id(cur) not in saved_ids:
                 cur[...] = val                      # same object, new contents: still an assignment
-                b.value_node(s).value = cur
+                b.value_node(s, model).value = cur
             elif isinstance(obj, lsl.Var) and op[3] == "var":
-                obj.value = val
+                (model.vars[obj.name] if getattr(b, "copied", False) else obj).value = val
             else:
-                b.value_node(s).value = val
+                b.value_node(s, model).value = val
             ref.assign(s)
             if auto:
                 after_update(f"auto-update after assignment #{step}")
@@ -233,6 +234,20 @@ def oracle(case):
                 if pending_off_assign:
                     nt_hist = True
                 require(all(c == 0 for c in b.counts.values()), "evaluation-during-state-restore", lambda: f"step {step}; {det()}")
+        elif kind == "rebuild":
+            # the nodes leave the model and a second model is built from the same node objects: the history continues on that model
+            nodes_, vars_ = model.pop_nodes_and_vars()
+            model = lsl.GraphBuilder().add(*nodes_.values(), *vars_.values()).build_model()
+            b.model = model
+            auto, pending_off_assign = True, False
+            saved.clear()
+            saved_ids.clear()
+            names = sorted(model.nodes)
+            for i in seeds:
+                ref.assign(f"seed:{i}")            # fresh seed nodes
+            for key in b.counts:
+                ref.seen[key] = ref.current(key)   # building evaluates every node
+            require(not any(n.outdated for n in model.nodes.values()), "built-model-has-outdated-nodes", lambda: f"after rebuild at step {step}; {det()}")
         elif kind == "seed":
             if seeds:
                 model.set_seed(jax.random.PRNGKey(op[1]))
